@@ -1,0 +1,25 @@
+//go:build verif
+
+package mathutils
+
+// Contracts for the govc verifier (/verif). This file is comment-only and is
+// excluded from every normal build by the tag above; it adds no code.
+
+//@ spec lower_ok(min, ex, x) =
+//@     (min != nil ==> x >= *min)
+//@     && (ex != nil && is_bool(*ex) && min != nil ==> (as_bool(*ex) ==> x > *min))
+//@     && (ex != nil && is_float(*ex) ==> x > as_float(*ex))
+//@ spec upper_ok(max, ex, x) =
+//@     (max != nil ==> x <= *max)
+//@     && (ex != nil && is_bool(*ex) && max != nil ==> (as_bool(*ex) ==> x < *max))
+//@     && (ex != nil && is_float(*ex) ==> x < as_float(*ex))
+//@ spec in_lower(b, e, x) = b != nil ==> (e ? x > *b : x >= *b)
+//@ spec in_upper(b, e, x) = b != nil ==> (e ? x < *b : x <= *b)
+
+//@ func NormalizeBounds
+//@   props C05 C02 C15
+//@   assigns nothing
+//@   ensures [C05,C02,C15] lower: forall x real :: in_lower(result0, result2, x) <==> lower_ok(minimum, exclusiveMinimum, x)
+//@   ensures [C05,C02,C15] upper: forall x real :: in_upper(result1, result3, x) <==> upper_ok(maximum, exclusiveMaximum, x)
+//@   ensures [C05,C15] shape-min: result0 == nil || result0 == minimum || fresh(result0)
+//@   ensures [C05,C15] shape-max: result1 == nil || result1 == maximum || fresh(result1)
